@@ -395,6 +395,15 @@ def gen_create(rng, tree):
              and n.anchor is None]
     if nulls and rng.random() < 0.2:
         pos, node = rng.choice(nulls)
+    # ... or at any other scalar (0, false and "" are scalars like 7 and
+    # "x"): nothing can be created beneath it, the request must be refused
+    scalars = [(p, n) for p, n in model.walk(tree)
+               if p and n.kind == "s" and n.value != ("null", None)]
+    if scalars and rng.random() < 0.08:
+        falsy = [(p, n) for p, n in scalars
+                 if n.value[1] in (0, False, "")]
+        pos, node = rng.choice(falsy if falsy and rng.random() < 0.6
+                               else scalars)
     tail = []
     if node.kind == "s":
         if rng.random() < 0.6:
@@ -437,7 +446,8 @@ class Session:
         if not loaded or doc is None:
             raise ValueError("generator produced an unloadable document")
         self.doc = doc
-        self.proc = Processor(QuietLog(), doc)
+        self.debug = bool(self.knobs.get("debug_log"))
+        self.proc = Processor(self.newlog(), doc)
         self.stats = {"steps": 0, "skipped": 0, "refused": 0, "matched": 0,
                       "forms": set(), "last_mutator": "C03"}
         # Domain guard: a document which ruamel cannot round-trip even
@@ -468,7 +478,19 @@ class Session:
                              "diff": model.diff(before, after)})
         return coords
 
+    def newlog(self):
+        from sim.util import debug_log
+        return debug_log() if self.debug else QuietLog()
+
     def step(self, oper):
+        if self.debug:
+            import contextlib
+            import io
+            with contextlib.redirect_stdout(io.StringIO()):
+                return self.step_(oper)
+        return self.step_(oper)
+
+    def step_(self, oper):
         self.stats["steps"] += 1
         kind = oper["op"]
         if self.cli:
@@ -478,7 +500,7 @@ class Session:
                 raise Violation(self.stats["last_mutator"],
                                 "cli-file-no-longer-loads",
                                 {"yaml": self.text[:400]})
-            self.proc = Processor(QuietLog(), self.doc)
+            self.proc = Processor(self.newlog(), self.doc)
             if kind in ("query", "reopen"):
                 self.stats["skipped"] += 1
                 return
@@ -543,6 +565,8 @@ class Session:
 
     def run_cli(self, argv, prop, what, expect_failure=False,
                 allow_refusal=False):
+        if self.debug:
+            argv = ["--debug"] + argv
         recipe = {"tool": "yaml-set", "argv": argv + [self.TARGET],
                   "files": {self.TARGET: self.text}, "knobs": self.knobs,
                   "stdin": "", "tty": True}
@@ -567,7 +591,7 @@ class Session:
                             {"after": what, "yaml": after[:600]})
         self.text = after
         self.doc = again
-        self.proc = Processor(QuietLog(), again)
+        self.proc = Processor(self.newlog(), again)
         return res, after
 
     @staticmethod
@@ -795,7 +819,13 @@ class Session:
         holder = model.at(tree, base)
         grown = holder.kind == "s" and holder.value == ("null", None) \
             and holder.anchor is None and len(base) > 0
-        if grown:
+        blocked = holder.kind == "s" and not grown and len(base) > 0
+        if blocked:
+            # Existing prefix ends at a real scalar: the path cannot come to
+            # resolve without destroying that scalar, so the only acceptable
+            # outcome is a refusal that changes nothing.
+            self.stats["forms"].add(("create", "create-under-scalar"))
+        elif grown:
             # Existing prefix ends at a null placeholder.  Both clauses of
             # the property cannot hold at once here (the path can only
             # resolve if the null becomes a container), so two outcomes are
@@ -826,7 +856,7 @@ class Session:
         if self.cli:
             done, _txt = self.run_cli(
                 ["--change=" + path] + self.cli_value(value, None),
-                "C09", "create " + path, allow_refusal=grown)
+                "C09", "create " + path, allow_refusal=grown or blocked)
             if done is None:
                 self.stats["refused"] += 1
                 return
@@ -839,7 +869,7 @@ class Session:
             else:
                 self.proc.set_value(path, value, mustexist=False)
         except YAMLPathException as ex:
-            if grown:
+            if grown or blocked:
                 if model.canon(model.build(self.doc)) != model.canon(tree):
                     raise Violation(
                         "C09", "refused-creation-changed-document",
@@ -853,6 +883,11 @@ class Session:
                             {"path": path, "error": str(ex)[:200]}) from ex
         after = model.build(self.doc)
         full = base + tail
+        if blocked:
+            raise Violation(
+                "C09", "creation-beneath-a-scalar-was-not-refused",
+                {"path": path, "scalar": model.typed_of(holder),
+                 "diff": model.diff(model.canon(tree), model.canon(after))})
         if grown:
             # from here on the placeholder counts as the (empty) container
             # it has to become
@@ -928,7 +963,7 @@ class Session:
         prop = self.stats["last_mutator"]
         again = reload_check(self.doc, self.knobs, prop, "reopen")
         self.doc = again
-        self.proc = Processor(QuietLog(), again)
+        self.proc = Processor(self.newlog(), again)
 
 
 # ----------------------------------------------------------------------
@@ -1028,6 +1063,10 @@ def gen_session(rng, prop, tier):
     steps = rng.choice([1, 2, 3, 4, 6, 8, 12])
     knobs = {"text_buf": rng.choice([1, 5, 32, 8192]),
              "write_through": rng.random() < 0.5}
+    if rng.random() < 0.06:
+        # the same session with debug logging on (--debug): what is logged
+        # must not change what is done
+        knobs["debug_log"] = True
     return {"document": text, "doc_model": doc, "knobs": knobs,
             "nsteps": steps, "history": [], "flow": flow,
             "cli": tier != "library-only" and rng.random() < 0.12}
